@@ -115,7 +115,7 @@ def run(prop, tier, seed, replay=None):
                                                      json.dumps(dict(hcfg, max_report=6))],
                                    procs=8, stride=stride)
     summ = [o for o in outs if o.get("summary")]
-    div = [o for o in outs if o.get("diverged")]
+    div = [o for o in outs if o.get("diverged") is True]
     nb = sum(s["behaviours"] for s in summ)
     nd = sum(s["diverged"] for s in summ)
     npanic = sum(s["panics"] for s in summ)
